@@ -18,6 +18,7 @@ import (
 	"encoding/binary"
 	"fmt"
 	"math/big"
+	"os"
 
 	"github.com/ethereum/go-ethereum/crypto"
 	"github.com/ethereum/go-ethereum/rlp"
@@ -133,8 +134,15 @@ func (n *c45Net) wireFail(p *c45Pkt, format string, a ...any) {
 	n.fatalf("wire observer: %s packet %s->%s %x: %s", p.kind, p.from.name, p.to.name, p.data, fmt.Sprintf(format, a...))
 }
 
+// c45NoObserver switches the observer off (used only to see whether a mutation
+// probe is also caught by the behavioural oracles alone).
+var c45NoObserver = os.Getenv("VERIF_C45_NOOBSERVER") != ""
+
 // observe checks an honest message / random / WHOAREYOU packet.
 func (n *c45Net) observe(p *c45Pkt) {
+	if c45NoObserver {
+		return
+	}
 	w, why := c45Unmask(p.to.id, p.data)
 	if w == nil {
 		n.wireFail(p, "%s", why)
@@ -181,6 +189,9 @@ func (n *c45Net) observe(p *c45Pkt) {
 // observeHandshake checks an honest handshake packet answering challenge ch and
 // derives the session keys of its generation.
 func (n *c45Net) observeHandshake(p *c45Pkt, ch *Whoareyou) {
+	if c45NoObserver {
+		return
+	}
 	x, y := p.from, p.to
 	w, why := c45Unmask(y.id, p.data)
 	if w == nil {
